@@ -71,6 +71,9 @@ CLAIMED = {
          "Decides structural necessary conditions of value-preserving compaction: one commit carries deletions of both input levels and all outputs; both input sets iterated; every iterator value reaches the merger's batch and the last batch is merged; merge errors abort, open outputs are finished; the merger unions series ids and (independently per bound) "
          "slot ranges of all blocks, flushes each merged series and commits with that range; relative offsets in the block writer are only taken against an anchor re-captured after foreign bytes were written; block footer writer/reader agree per role; field-type tables are exhaustive and consistent; the combine step has the expected algebraic form. "
          "Aggregate values over data, slot arithmetic in the series merger and decoding are not decided."),
+ 'C04': ("static analysis: provenance/order rules over the rollup bookkeeping (registration in the flush commit, skip of referenced files, reference records in the job's commit, ok-guarded delete-rollup records, source commit before reference cleaning), sibling symmetry of the target range ends, calculator exhaustiveness",
+         "Decides the exactly-once bookkeeping structurally: each flushed file is registered for every configured target in the flush's own commit; rollup work consults the target's live references first, drops referenced files and selects inputs from the filtered set; a reference record naming the same file is created for every existing input and is in the "
+         "compaction's log before the job runs; delete-rollup records and reference cleaning are scheduled only for targets whose work succeeded; the source commit precedes every cleaning; both ends of the target slot range use one mapping; every interval type has a calculator. Slot arithmetic and aggregate values are not decided."),
  'C05': ("static analysis: lock-hold dataflow (ATOMIC), dominance (ORDER), value provenance and writer/reader layout agreement over go/ssa",
          "Decides, for every path of the append code as written, that one Put is a single write hold of queue.rwMutex covering cursor advance, data write, "
          "index entry, meta write and sequence publication; that data<index<meta<publish<signal is the only order; that the published sequence is appendedSeq+1 "
